@@ -4,3 +4,4 @@ pub mod c14;
 pub mod c04;
 pub mod c05;
 pub mod c17;
+pub mod c03;
